@@ -27,8 +27,9 @@ def DATA_ERROR : Ret := 9
 def PROG_ERROR : Ret := 11
 def TIMED_OUT : Ret := 101
 
-/-- `chunk_size` of worker_decoder and the factor of GET_BUFS_LIMIT (outqueue.c); tied to the source by Gen/C07.lean. -/
-def chunkSize : Nat := 16384
+/-- The factor of GET_BUFS_LIMIT (outqueue.c); tied to the source by Gen/C07.lean. (worker_decoder's `chunk_size`, which only
+    bounds how much of the already published input one Block decoder call is offered, is not modelled: a call may consume
+    anything up to the in_filled snapshot, a superset of what any chunk size allows.) -/
 def bufsLimitFactor : Nat := 2
 
 inductive Kind | thr | direct | badHeader | sync
@@ -302,7 +303,7 @@ def workerDecide (w : Worker) : Worker :=
   | .exit => { w with pc := .cleanup }
   | .run =>
     if w.inFilled = w.inPos && w.pu != .start then { w with pc := .wait, woken := false }
-    else { w with pc := .decode (min w.inFilled (w.inPos + chunkSize)) w.pu }
+    else { w with pc := .decode w.inFilled w.pu }
 
 def popFree (s : State) : Option (Nat × List Nat) :=
   match s.threadsFree with
